@@ -190,6 +190,14 @@ async def bounded(coro, rounds=REF_ROUNDS):
     return ('ok', task.result())
 
 
+class TransportRaised(Exception):
+    """an exception raised by PacketParser.feed_data inside a transport receive callback"""
+
+    def __init__(self, name):
+        super().__init__(name)
+        self.name = name
+
+
 class World:
     """Two real Devices + Controllers on a LocalLink: connection 'le' (GATT, LE signalling,
     SMP) and connection 'br' (signalling, SDP, RFCOMM+HFP, AVDTP, AVCTP).  Device 1 is the
@@ -217,6 +225,21 @@ class World:
         self.ctrls = [Controller(f'C{i}', link=link, public_address=addrs[i]) for i in range(2)]
         self.devs = [device.Device(address=Address(addrs[i]), host=Host(self.ctrls[i], AsyncPipeSink(self.ctrls[i])))
                      for i in range(2)]
+        self.tp_kind = flavour[3:] if flavour.startswith('tp-') else None
+        self.tp_errors = []
+        self.tp_transport = None
+        if self.tp_kind:
+            # device 0 talks to its controller through a byte transport: every HCI packet from the
+            # controller goes through the PacketParser of a transport source, driven the way that
+            # kind of transport drives it
+            source, self.tp_feed = await self.make_transport_source(self.tp_kind)
+            feed = self.tp_feed
+
+            class ControllerToBytes:
+                def on_packet(self, packet):
+                    feed(bytes(packet))
+            self.ctrls[0].set_packet_sink(ControllerToBytes())
+            self.devs[0] = device.Device.with_hci('d0', Address(addrs[0]), source, AsyncPipeSink(self.ctrls[0]))
         devs = self.devs
         for d in devs:
             d.classic_enabled = True
@@ -340,6 +363,62 @@ class World:
         self.mid_excs = []
         self.with_hfp = with_hfp
         return self
+
+    async def make_transport_source(self, kind):
+        """-> (source, feed): feed(data) hands one chunk of controller bytes to the source the way
+        the transports of that kind do.
+          bare   : udp / hci_socket / pyusb / ws_server / vhci / netsim shape: parser.feed_data(data)
+                   straight from a receive callback; an exception goes to the caller (asyncio logs
+                   it) and the next chunk is fed
+          stream : StreamPacketSource.data_received (tcp / serial / pty / unix)
+          pumped : PumpedPacketSource with its pump task (ws_client, android emulator, ...)
+          udp    : the real UdpPacketSource of open_udp_transport, datagram_received called directly"""
+        from bumble.transport import common
+        errors = self.tp_errors
+        if kind == 'bare':
+            source = common.ParserSource()
+
+            def feed(data):
+                try:
+                    source.parser.feed_data(data)
+                except Exception as e:                  # what asyncio does with a failing callback
+                    errors.append(type(e).__name__)
+            return source, feed
+        if kind == 'stream':
+            source = common.StreamPacketSource()
+            return source, source.data_received
+        if kind == 'pumped':
+            queue = asyncio.Queue()
+            source = common.PumpedPacketSource(queue.get)
+            source.start()
+            self.tp_transport = source
+            return source, queue.put_nowait
+        if kind == 'udp':
+            from bumble.transport.udp import open_udp_transport
+            transport = await open_udp_transport('127.0.0.1:0,127.0.0.1:9')
+            self.tp_transport = transport
+            source = transport.source
+
+            def feed(data):
+                try:
+                    source.datagram_received(data, ('127.0.0.1', 9))
+                except Exception as e:
+                    errors.append(type(e).__name__)
+            return source, feed
+        raise KeyError(kind)
+
+    async def close(self):
+        t = self.tp_transport
+        self.tp_transport = None
+        if t is not None:
+            r = t.close()
+            if asyncio.iscoroutine(r):
+                await r
+
+    async def ref_hci_command(self):
+        from bumble import hci
+        r = await bounded(self.devs[0].host.send_sync_command(hci.HCI_Read_BD_ADDR_Command()))
+        return None if r[0] == 'ok' else f'HCI Read_BD_ADDR command -> {r}'
 
     # ---- addressing
     def handle(self, conn, dev):
@@ -620,6 +699,8 @@ class World:
                 bad = await self.ref_ertm(fresh=name.endswith('fresh'))
             elif name == 'pair':
                 bad = await self.ref_pair()
+            elif name == 'hci.cmd':
+                bad = await self.ref_hci_command()
             else:
                 raise KeyError(name)
             if bad:
@@ -670,6 +751,13 @@ class World:
             for pb, n in frags:
                 host.on_packet(self.acl(handle, pb, op.get('bc', 0), frame[pos:pos + n]))
                 pos += n
+        elif kind == 'tfeed':                  # controller bytes through device 0's transport source
+            n0 = len(self.tp_errors)
+            for chunk in op['chunks']:
+                self.tp_feed(bytes.fromhex(chunk))
+            if len(self.tp_errors) > n0:
+                # surfaced like an exception at the entry point (an ordinary one is allowed)
+                raise TransportRaised(self.tp_errors[n0])
         elif kind == 'rfc':                    # a protocol-valid RFCOMM frame (raw channel, or the honest mux)
             dev = op['dev']
             frame = self.rfc_frame(op)
@@ -734,6 +822,8 @@ World.rfc_frame = _rfc_frame
 
 
 def op_len(op):
+    if op['k'] == 'tfeed':
+        return sum(len(c) for c in op['chunks']) // 2
     if op['k'] == 'expect':
         return 0
     if op['k'] == 'mid':
@@ -746,6 +836,8 @@ def op_len(op):
 def op_entry(op):
     """Stable name of the entry point / channel an op targets (part of the signature)."""
     k = op['k']
+    if k == 'tfeed':
+        return f"transport.{op['kind']}"
     if k == 'mid':
         return f"mid-transaction.{op['req']}"
     side = 'server' if op['dev'] == 1 else 'client'
@@ -1503,6 +1595,8 @@ async def run_case(w, case):
                     w.deliver(op)
             except Abort as a:
                 verdict = a.kind
+            except TransportRaised as e:
+                excs.append(e.name)
             except Exception as e:            # an ordinary exception is allowed by the property
                 excs.append(type(e).__name__)
             except BaseException as e:        # anything else (SystemExit, CancelledError, ...) is not
@@ -2225,12 +2319,71 @@ def corr_tlv(ctx, rng):
         avdtp.ServiceCapabilities.create = orig
 
 
+def corr_transport(ctx, rng):
+    """Chunk lists (well-formed packets and unknown type bytes, cut anywhere) through a real
+    ParserSource driven like a datagram transport and through a real StreamPacketSource,
+    against C02's parser model driven chunk by chunk."""
+    from bumble.transport import common
+
+    def chunks():
+        stream = b''
+        for _ in range(rng.range(1, 5)):
+            stream += bytes([rng.choice(TP_JUNK)]) if rng.chance(1, 4) else bytes.fromhex(rng.choice(TP_VALID))
+        cuts = sorted(rng.below(len(stream) + 1) for _ in range(rng.choice([0, 1, 2, 4])))
+        return [stream[a:b] for a, b in zip([0] + cuts, cuts + [len(stream)])]
+    cases = [[b'\x77'], [b'\x77', bytes.fromhex('04100100')], [bytes.fromhex('7704100100')], [bytes.fromhex('04100100ff04130100')], [b'']]
+    for _ in range(ctx.n(150, 3000)):
+        cases.append(chunks())
+    exprs = ['snd (tp_receive_all tp_packet_info tp_init ' + coq_list(c, coq_bytes) + ')' for c in cases]
+    model = yield exprs
+
+    async def real(case, kind):
+        class Sink:
+            def __init__(self):
+                self.got = []
+
+            def on_packet(self, p):
+                self.got.append(bytes(p))
+        sink = Sink()
+        source = common.ParserSource() if kind == 'bare' else common.StreamPacketSource()
+        source.set_packet_sink(sink)
+        out = []
+        for c in case:
+            n = len(sink.got)
+            err = None
+            if kind == 'bare':
+                try:
+                    source.parser.feed_data(c)
+                except Exception as e:
+                    err = type(e).__name__
+            else:
+                source.data_received(c)
+            out.append([sink.got[n:], err])
+        return out
+    for case, m in zip(cases, model):
+        ctx.count('corr.transport')
+        mm = []
+        for chunk_out in m:
+            pk = [bytes(o[1]) for o in chunk_out if o[0].endswith('Packet')]
+            er = 'InvalidPacketError' if any(o[0].endswith('Error') for o in chunk_out) else None
+            mm.append([pk, er])
+        try:
+            bare = guarded(sum(len(c) for c in case), lambda: asyncio.run(real(case, 'bare')))
+            stream = asyncio.run(real(case, 'stream'))
+        except RealHang as h:
+            _hang_violation(ctx, 'transport.PacketParser.feed_data', b''.join(case), str(h))
+            continue
+        ctx.case(('transport', tuple(case)), any(e for _, e in mm), None)
+        if bare != mm or [p for p, _ in stream] != [p for p, _ in mm]:
+            ctx.disagree('transport sources', {'chunks': [c.hex() for c in case]}, repr(mm), repr([bare, stream]))
+
+
 def correspondence(ctx):
     """Each corr_* is a generator: it yields lists of Coq expressions and receives the
     evaluated models.  All expressions of a round are evaluated in one coq_eval call (the
     shards run in parallel)."""
     rng = ctx.rng.fork('correspondence')
-    gens = [f(ctx, rng) for f in (corr_at, corr_options, corr_att, corr_smp, corr_sig, corr_sdp, corr_host, corr_process_tx, corr_tlv)]
+    gens = [f(ctx, rng) for f in (corr_at, corr_options, corr_att, corr_smp, corr_sig, corr_sdp, corr_host, corr_process_tx, corr_tlv, corr_transport)]
     pending = []
     for g in gens:
         try:
@@ -2238,7 +2391,7 @@ def correspondence(ctx):
         except StopIteration:
             pass
     requires = ['Model.HostileAt', 'Model.HostileFields', 'Model.HostileSdp', 'Model.HostileHost', 'Model.HostileRfcomm',
-                'Model.HostileLoops', 'Gen.C17Tables']
+                'Model.HostileLoops', 'Proofs.HostileTransport', 'Gen.C17Tables']
     while pending:
         exprs = [e for _, es in pending for e in es]
         values = ctx.coq_eval(requires, exprs, shard=300)
@@ -2593,6 +2746,50 @@ def mid_cases(rng, quick=True):
     return out
 
 
+# harmless well-formed packets from a controller (filler around the hostile bytes)
+TP_VALID = ['04100100',                    # Hardware Error event, code 0
+            '04130100',                    # Number Of Completed Packets, no handles
+            '04ff020102',                  # vendor event
+            '02ef0e04000000' + '0400',     # ACL data for a handle nobody has
+            '04010100']                    # Inquiry Complete
+TP_JUNK = [0x00, 0x06, 0x07, 0x77, 0xFE, 0xFF]
+TP_KINDS = ('bare', 'stream', 'pumped', 'udp')
+
+
+def transport_cases(rng, quick=True, n_random=0):
+    """Hostile controller bytes through every kind of transport source in front of device 0's
+    Host: a byte that is not an HCI packet type at a packet boundary, alone, followed by
+    well-formed packets in the same chunk, followed by them in later chunks.  Chunks are cut at
+    packet boundaries (cutting inside a packet is C02's subject).  Oracle: the InvalidPacketError
+    is an ordinary exception; afterwards every reference request - all of whose answers now pass
+    through that parser - and a plain HCI command must be answered."""
+    out = []
+    refs = ['conn', 'hci.cmd', 'att', 'echo.le', 'echo.br']
+
+    def add(kind, name, chunks):
+        out.append({'name': f'transport-{kind}-{name}', 'target': 'transport', 'src': 'transport', 'flavour': 'tp-' + kind,
+                    'refs': refs, 'ops': [{'k': 'tfeed', 'dev': 0, 'kind': kind, 'chunks': chunks}]})
+    v = TP_VALID
+    for kind in TP_KINDS:
+        add(kind, 'junk-alone', ['77'])
+        add(kind, 'junk-then-valid-same-chunk', ['77' + v[0]])
+        add(kind, 'junk-then-valid-later-chunk', ['77', v[0], v[1]])
+        add(kind, 'valid-junk-valid-same-chunk', [v[0] + 'ff' + v[1]])
+        add(kind, 'junk-run', ['00', '06', 'fe', 'ff' + v[2]])
+        add(kind, 'junk-with-tail-then-valid', ['7700020102', v[0]])
+        add(kind, 'empty-chunks', ['', '77', '', v[3]])
+        add(kind, 'valid-only', [v[0] + v[1] + v[2] + v[3] + v[4]])
+        for _ in range(n_random):
+            chunks = []
+            for _ in range(rng.range(1, 5)):
+                units = []
+                for _ in range(rng.range(1, 4)):
+                    units.append(bytes([rng.choice(TP_JUNK)]).hex() if rng.chance(1, 3) else rng.choice(v))
+                chunks.append(''.join(units))
+            add(kind, 'random', chunks)
+    return out
+
+
 def load_corpus():
     out = []
     if os.path.isdir(CORPUS_DIR):
@@ -2633,7 +2830,8 @@ async def build_world(flavour):
     bounded in event-loop rounds, so that a change that makes plain connection set-up loop
     or stall is reported instead of suffered."""
     w = World()
-    if flavour in _BUILD_CHECKED:
+    # (the flavours share their set-up code: two representatives are traced)
+    if flavour in _BUILD_CHECKED or flavour not in ('hfp', 'tp-bare'):
         r = await bounded(w.build(flavour), 200000)
     else:
         try:
@@ -2679,12 +2877,13 @@ async def _segment(cases, start, flavour, sink):
         history.append(case)
         if res['verdict'] or is_terminal(case) or len(history) >= WORLD_LIFETIME or case['target'] in SIGNALLING_TARGETS:
             break
+    await w.close()
     return i
 
 
 def run_cases(cases, sink):
     """Run the cases grouped by world flavour (with / without HFP on the RFCOMM channel)."""
-    for flavour in ('hfp', 'raw', 'avrcp'):
+    for flavour in ('hfp', 'raw', 'avrcp', 'tp-bare', 'tp-stream', 'tp-pumped', 'tp-udp'):
         group = [c for c in cases if flavour_of(c) == flavour]
         i = 0
         while i < len(group):
@@ -2805,9 +3004,10 @@ def run(ctx):
     ctx.extra['recorded_seed_pdus'] = {k: len(v) for k, v in sorted(seeds['chan'].items())}
     ctx.extra['recorded_hci_packets'] = [len(x) for x in seeds['hci']]
     cases = (load_corpus() + directed_cases() + stateful_cases(ctx.rng.fork('stateful'), ctx.quick())
-             + mid_cases(ctx.rng.fork('mid'), ctx.quick()))
+             + mid_cases(ctx.rng.fork('mid'), ctx.quick())
+             + transport_cases(ctx.rng.fork('transport'), ctx.quick(), ctx.n(6, 150)))
     gen = Gen(ctx.rng.fork('campaign'), seeds)
-    for _ in range(ctx.n(1100, 30000)):
+    for _ in range(ctx.n(1000, 30000)):
         cases.append(gen.case())
     campaign(ctx, cases)
     ctx.log('campaign done:', ctx.dist.get('campaign.cases'), 'cases,', len(ctx.violations), 'violations')
